@@ -292,10 +292,19 @@ func verifC03Sess(f []string) string {
 		}
 	}
 	var out []string
+	nreq := func() int {
+		stub.mtx.Lock()
+		defer stub.mtx.Unlock()
+		return len(stub.log)
+	}
 	if f[6] != "-" {
 		for _, op := range strings.Split(f[6], ",") {
 			if op == "" {
 				return "bad-op"
+			}
+			// every op result is followed by "@<number of requests made so far>"
+			if n := len(out); n > 0 && !strings.Contains(out[n-1], "@") {
+				out[n-1] += fmt.Sprintf("@%d", nreq())
 			}
 			switch op[0] {
 			case 'G':
@@ -401,6 +410,9 @@ func verifC03Sess(f []string) string {
 				return "bad-op"
 			}
 		}
+	}
+	if n := len(out); n > 0 && !strings.Contains(out[n-1], "@") {
+		out[n-1] += fmt.Sprintf("@%d", nreq())
 	}
 	res := "-"
 	if len(out) > 0 {
